@@ -3,7 +3,6 @@ package c10
 import (
 	"fmt"
 	"math/big"
-	"strings"
 
 	"cosmossdk.io/collections"
 	"github.com/cockroachdb/apd/v3"
@@ -228,5 +227,3 @@ func (w *world) dump(ctx sdk.Context) dstate {
 }
 
 func sameState(a, b dstate) bool { return a.coq() == b.coq() }
-
-var _ = strings.Join
